@@ -1,0 +1,13 @@
+//go:build verif
+
+package eval
+
+import "os"
+
+// With the `verif` build tag, GROL_VERIF_CACHE_OFF=1 in the environment starts the process with memoization
+// switched off (VerifCacheOff), so that the grol binary itself (multi-file runs) can be compared cache on / off.
+func init() {
+	if os.Getenv("GROL_VERIF_CACHE_OFF") == "1" {
+		VerifCacheOff = true
+	}
+}
